@@ -1171,4 +1171,140 @@ theorem dieRangesCore_list_items (u : UnitCtx) (secs : Sections) (attrs : Attrs)
   | diverge => rw [hl] at h; simp at h
 
 
+/-! ## totality of the unit-level helpers -/
+
+theorem getOffset_normal (c : Cfg) (sec : Bytes) (base i : Nat) : (getOffset c sec base i).Normal := by
+  unfold getOffset
+  split
+  · simp [Out.Normal]
+  · simp only; split
+    · simp [Out.Normal]
+    · split
+      · simp [Out.Normal]
+      · generalize List.drop (i * c.format.wordSize) (List.drop base sec) = r
+        cases hf : c.format with
+        | dwarf32 =>
+          simp only [readWord, readFixed_eq]
+          split
+          · simp only [Out.bind_ok]; split <;> simp [Out.Normal]
+          · simp [Out.Normal]
+        | dwarf64 =>
+          simp only [readWord, readFixed_eq]
+          split
+          · simp only [Out.bind_ok, offsetFromU64]
+            split
+            · simp only [Out.bind_ok, Out.pure_eq]; split <;> simp [Out.Normal]
+            · simp [Out.Normal]
+          · simp [Out.Normal]
+
+theorem cookedAll_normal (k : Kind) (c : Cfg) (f : Fmt) (addr : Bytes) (ab base : Nat) (bs : Bytes) :
+    (cookedAll k c f addr ab base bs).Normal := by
+  obtain ⟨raw, h1, _⟩ := rawFuel_ok k c f (bs.length + 1) bs (by omega)
+  obtain ⟨out, h3, _⟩ := cook_ok c addr ab raw base
+  unfold cookedAll rawAll
+  rw [h1]; simp only [Out.bind_ok, h3, Out.Normal]
+
+theorem cookedAt_normal (k : Kind) (c : Cfg) (dwo : Bool) (legacy v5 : Bytes) (offset base : Nat)
+    (addr : Bytes) (ab : Nat) : (cookedAt k c dwo legacy v5 offset base addr ab).Normal := by
+  unfold cookedAt
+  simp only
+  split
+  · split
+    · simp [Out.Normal]
+    · exact cookedAll_normal _ _ _ _ _ _ _
+  · split
+    · simp [Out.Normal]
+    · exact cookedAll_normal _ _ _ _ _ _ _
+
+theorem attrAddress_normal (u : UnitCtx) (secs : Sections) (v : AttrVal) :
+    (attrAddress u secs v).Normal := by
+  cases v <;> simp only [attrAddress, Out.Normal]
+  exact normal_bind _ _ (getAddress_normal _ _ _ _) (fun a => by simp [Out.Normal])
+
+theorem attrRangesOffset_normal (u : UnitCtx) (secs : Sections) (v : AttrVal) :
+    (attrRangesOffset u secs v).Normal := by
+  cases v <;> simp only [attrRangesOffset, Out.Normal]
+  exact normal_bind _ _ (getOffset_normal _ _ _ _) (fun a => by simp [Out.Normal])
+
+theorem dieRangesLoop_normal (u : UnitCtx) (secs : Sections) (attrs : Attrs) :
+    ∀ acc, (dieRangesLoop u secs attrs acc).Normal := by
+  induction attrs with
+  | nil => intro acc; simp [dieRangesLoop, Out.Normal]
+  | cons a rest ih =>
+    intro acc
+    obtain ⟨n, v⟩ := a
+    have A := attrAddress_normal u secs
+    cases n with
+    | lowPc =>
+      rw [dieRangesLoop]
+      refine normal_bind _ _ (A v) (fun oa => ?_)
+      cases oa with
+      | none => simp [Out.Normal]
+      | some a => exact ih _
+    | highPc =>
+      cases v with
+      | udata val => rw [dieRangesLoop]; exact ih _
+      | addr x => simp only [dieRangesLoop, attrAddress, Out.bind_ok]; exact ih _
+      | addrx i =>
+        rw [dieRangesLoop]
+        · refine normal_bind _ _ (A _) (fun oa => ?_)
+          cases oa with
+          | none => simp [Out.Normal]
+          | some a => exact ih _
+        · simp
+      | secOffset o => simp [dieRangesLoop, attrAddress, Out.Normal]
+      | listx i => simp [dieRangesLoop, attrAddress, Out.Normal]
+      | other => simp [dieRangesLoop, attrAddress, Out.Normal]
+    | ranges =>
+      rw [dieRangesLoop]
+      refine normal_bind _ _ (attrRangesOffset_normal u secs v) (fun oo => ?_)
+      cases oo with
+      | none => exact ih _
+      | some o =>
+        exact normal_bind _ _ (cookedAt_normal _ _ _ _ _ _ _ _ _) (fun evs => by simp [Out.Normal])
+    | location => simp only [dieRangesLoop]; exact ih _
+    | addrBase => simp only [dieRangesLoop]; exact ih _
+    | rnglistsBase => simp only [dieRangesLoop]; exact ih _
+    | loclistsBase => simp only [dieRangesLoop]; exact ih _
+    | other => simp only [dieRangesLoop]; exact ih _
+
+theorem dieRangesCore_normal (u : UnitCtx) (secs : Sections) (attrs : Attrs) :
+    (dieRangesCore u secs attrs).Normal := by
+  unfold dieRangesCore
+  refine normal_bind _ _ (dieRangesLoop_normal u secs attrs {}) (fun r => ?_)
+  cases r with
+  | inr evs => simp [Out.Normal]
+  | inl acc =>
+    simp only
+    split
+    · simp [Out.Normal]
+    · split
+      · split <;> simp [Out.Normal]
+      · simp [Out.Normal]
+
+theorem attrLocations_items (u : UnitCtx) (secs : Sections) (v : AttrVal) (evs : List (Ev Item))
+    (h : attrLocations u secs v = .ok (some evs)) :
+    ∀ it, Ev.item it ∈ evs → it.b < it.e ∧ it.b < minTombstone u.cfg.addrSize := by
+  unfold attrLocations at h
+  cases ho : attrLocationsOffset u secs v with
+  | ok oo =>
+    rw [ho] at h
+    cases oo with
+    | none => simp at h
+    | some o =>
+      simp only [Out.bind_ok] at h
+      cases hu : unitLocationsAt u secs o with
+      | ok evs' =>
+        rw [hu] at h
+        simp only [Out.bind_ok, Out.pure_eq, Out.ok.injEq, Option.some.injEq] at h
+        subst h
+        exact cookedAt_items _ _ _ _ _ _ _ _ _ _ hu
+      | err e => rw [hu] at h; simp at h
+      | panic w => rw [hu] at h; simp at h
+      | diverge => rw [hu] at h; simp at h
+  | err e => rw [ho] at h; simp at h
+  | panic w => rw [ho] at h; simp at h
+  | diverge => rw [ho] at h; simp at h
+
+
 end Gimli.Lists
